@@ -79,6 +79,11 @@ def iterDown (step : Int → Int) (t1 : Int) : Nat → Int → List Int
   | 0, _ => []
   | k + 1, t => if t ≥ t1 then t :: iterDown step t1 k (step t) else []
 
+/-- `step` applied `n` times (specification vocabulary: the `i`-th element of a range is `iter step i t0`) -/
+def iter (step : Int → Int) : Nat → Int → Int
+  | 0, t => t
+  | n + 1, t => iter step n (step t)
+
 def upTo (step : Int → Int) (t0 t1 : Int) : List Int := iterUp step t1 ((t1 - t0).toNat + 1) t0
 def downTo (step : Int → Int) (t0 t1 : Int) : List Int := iterDown step t1 ((t0 - t1).toNat + 1) t0
 
